@@ -44,6 +44,10 @@ def origin(prog: Prog, fn: Fn, name: str, depth: int = 0) -> str:
             toks.add("with:" + _src(prog, fn, node.context_expr, depth + 1))
         elif kind == "except":
             toks.add("except")
+    if len(toks) == 1:
+        (only,) = toks
+        if only.startswith("<") and only.endswith(">"):
+            return only  # a plain alias of another local: same origin, no extra wrapping
     return "<" + "|".join(sorted(toks)) + ">"
 
 
@@ -82,13 +86,28 @@ def _src(prog: Prog, fn: Fn, e: ast.AST, depth: int) -> str:
     return type(e).__name__
 
 
-def canon(prog: Prog, fn: Fn, expr: ast.AST) -> str:
+def canon(prog: Prog, fn: Fn, expr: ast.AST, as_ast: bool = False):
     """Text of `expr` with local names replaced by their origin tokens."""
 
+    def predicate_like(e: ast.AST) -> bool:
+        if isinstance(e, (ast.Compare, ast.BoolOp)) or (isinstance(e, ast.UnaryOp) and isinstance(e.op, ast.Not)):
+            return True
+        return isinstance(e, ast.Call) and isinstance(e.func, ast.Name) and e.func.id in ("isinstance", "bool", "hasattr", "callable", "any", "all", "issubclass")
+
     class R(ast.NodeTransformer):
+        depth = 0
+
         def visit_Name(self, node):
             if node.id in ("self", "cls", "True", "False", "None"):
                 return node
+            # a flag that names a condition (`is_table = isinstance(x, Table)`) stands for that condition
+            defs = prog.local_defs(fn, node.id)
+            if len(defs) == 1 and defs[0][0] in ("assign", "walrus") and getattr(defs[0][1], "value", None) is not None and predicate_like(defs[0][1].value) and self.depth < 4:
+                self.depth += 1
+                try:
+                    return self.visit(copy.deepcopy(defs[0][1].value))
+                finally:
+                    self.depth -= 1
             tok = origin(prog, fn, node.id)
             if tok == node.id:
                 return node
@@ -98,9 +117,10 @@ def canon(prog: Prog, fn: Fn, expr: ast.AST) -> str:
             return self.visit(node.value)
 
     try:
-        return u(R().visit(copy.deepcopy(expr)))
+        out = R().visit(copy.deepcopy(expr))
     except Exception:
-        return u(expr)
+        out = expr
+    return out if as_ast else u(out)
 
 
 def canon_text(prog: Prog, fn: Fn, text: str) -> str:
